@@ -1,9 +1,244 @@
-import Model.Proc.FilterEval
-import Model.Spec.FilterSem
+/-
+C06 — filters keep exactly the measurements their boolean meaning denotes. Property theorems only
+(helpers: Proofs/Lemmas/C06Bits, C06Mask, C06Eval, C06Walk, C06Match, C06Proj).
+
+Vocabulary: `walk re e = .ok f` — NewFilter accepted the tree `e` and compiled it to the
+closure `f` (`re` is the regexp oracle); `filterMatch f res` — `Filter.Match`;
+`filterApply f res` — `Filter.Apply`; `denote re res i e` — ⟦e⟧ res i (Model/Spec/FilterSem).
+All statements hold for every tree, every result and every measurement count (any number of
+mask words).
+-/
+import Proofs.Lemmas.C06Walk
+import Proofs.Lemmas.C06Match
+import Proofs.Lemmas.C06Proj
 
 namespace C06
-open Proc.FilterEval
+open Proc.FilterEval Spec.FilterSem Proc.Extract
 
-theorem match_pure (f : FilterFn) (res : Res) : (filterMatch f res).n = res.values.length := rfl
+theorem matchWF_of (f : FilterFn) (res : Res) (h : OutWF res.values.length (f res)) :
+    MatchWF (filterMatch f res) := h
+
+/-- **eval_test**: measurement `i` is matched iff the expression is true at `i`. -/
+theorem eval_test (re : ReOracle) (e : Filter) (f : FilterFn) (res : Res) (i : Nat)
+    (h : walk re e = .ok f) (hi : i < res.values.length) :
+    (filterMatch f res).test i = denote re res i e :=
+  (walk_sound re res e f h).2 i hi
+
+/-- `Test` outside `0 ≤ i < n` is false (also for negative arguments). -/
+theorem test_out_of_range (f : FilterFn) (res : Res) (i : Int)
+    (hi : i < 0 ∨ (res.values.length : Int) ≤ i) : (filterMatch f res).testInt i = false := by
+  unfold Match.testInt
+  split
+  · rfl
+  · rename_i hneg
+    have h2 : (res.values.length : Int) ≤ i := by omega
+    have : i.toNat ≥ (filterMatch f res).n := by simp [filterMatch]; omega
+    simp [Match.test, this]
+
+/-- **all_iff** (at least one measurement): `All()` iff the expression holds at every measurement. -/
+theorem all_iff (re : ReOracle) (e : Filter) (f : FilterFn) (res : Res)
+    (h : walk re e = .ok f) (hn : 0 < res.values.length) :
+    (filterMatch f res).all = true ↔ ∀ i, i < res.values.length → denote re res i e = true := by
+  obtain ⟨w, t⟩ := walk_sound re res e f h
+  rw [all_spec _ (matchWF_of f res w) hn]
+  constructor
+  · intro hh i hi; rw [← t i hi]; exact hh i hi
+  · intro hh i hi; have := hh i hi; rw [← t i hi] at this; exact this
+
+/-- **any_iff** (at least one measurement): `Any()` iff the expression holds at some measurement. -/
+theorem any_iff (re : ReOracle) (e : Filter) (f : FilterFn) (res : Res)
+    (h : walk re e = .ok f) (hn : 0 < res.values.length) :
+    (filterMatch f res).any = true ↔ ∃ i, i < res.values.length ∧ denote re res i e = true := by
+  obtain ⟨w, t⟩ := walk_sound re res e f h
+  rw [any_spec _ (matchWF_of f res w) hn]
+  constructor
+  · rintro ⟨i, hi, hh⟩; exact ⟨i, hi, by rw [← t i hi]; exact hh⟩
+  · rintro ⟨i, hi, hh⟩; refine ⟨i, hi, ?_⟩; have := t i hi; simp only [outTest] at this; rw [← hh]; exact this
+
+/-- boundary, no measurements: `All`/`Any` show the whole-result boolean for a nil mask; a
+non-nil (empty) mask gives `All = true`, `Any = false`. Recorded as a boundary note. -/
+theorem all_any_zero (re : ReOracle) (e : Filter) (f : FilterFn) (res : Res)
+    (h : walk re e = .ok f) (hn : res.values.length = 0) :
+    (filterMatch f res).all = (match (f res).1 with | none => (f res).2 | some _ => true) ∧
+    (filterMatch f res).any = (match (f res).1 with | none => (f res).2 | some _ => false) := by
+  obtain ⟨w, _⟩ := walk_sound re res e f h
+  exact ⟨all_zero _ (matchWF_of f res w) hn, any_zero _ (matchWF_of f res w) hn⟩
+
+/-- Apply for any compiled closure that denotes a predicate `P`. -/
+theorem apply_of_denotes (f : FilterFn) (res : Res) (P : Nat → Bool)
+    (w : OutWF res.values.length (f res))
+    (t : ∀ i, i < res.values.length → outTest res.values.length (f res) i = P i) :
+    (filterApply f res).1.values = keepIdx P res.values ∧
+    (filterApply f res).1.name = res.name ∧ (filterApply f res).1.config = res.config ∧
+    (0 < res.values.length → (filterApply f res).2 = !(keepIdx P res.values).isEmpty) ∧
+    (0 < res.values.length → (filterApply f res).2 = (filterMatch f res).any) := by
+  have hv : ((filterMatch f res).apply res.values).1 = keepIdx P res.values := by
+    rw [apply_values _ (matchWF_of f res w) res.values rfl, keepIdx_eq, keepIdx_eq]
+    exact keepFrom_congr _ _ _ _ (fun i _ hi => t i (by omega))
+  refine ⟨hv, rfl, rfl, fun hn => ?_, fun hn => ?_⟩
+  · have := apply_flag _ (matchWF_of f res w) res.values rfl hn
+    simp only [filterApply]; rw [this, hv]
+  · exact apply_flag_any _ (matchWF_of f res w) res.values rfl hn
+
+/-- **apply_spec**: `Filter.Apply` keeps precisely the measurements at which the expression
+holds, in their original order, leaves name and configuration alone, and (for at least one
+measurement) returns whether any measurement remains (= `Any()`). -/
+theorem apply_spec (re : ReOracle) (e : Filter) (f : FilterFn) (res : Res) (h : walk re e = .ok f) :
+    (filterApply f res).1.values = kept re e res ∧
+    (filterApply f res).1.name = res.name ∧ (filterApply f res).1.config = res.config ∧
+    (0 < res.values.length → (filterApply f res).2 = !(kept re e res).isEmpty) ∧
+    (0 < res.values.length → (filterApply f res).2 = (filterMatch f res).any) := by
+  obtain ⟨w, t⟩ := walk_sound re res e f h
+  exact apply_of_denotes f res (fun i => denote re res i e) w t
+
+/-- **apply_zero** (boundary): with no measurements nothing is kept and the flag is `All()`,
+which is `true` whenever the mask is non-nil (e.g. any expression whose first decisive operand is
+a `.unit` term) — "none remain" is then reported as `true`. -/
+theorem apply_zero (f : FilterFn) (res : Res) (hn : res.values.length = 0) :
+    (filterApply f res).1.values = [] ∧ (filterApply f res).2 = (filterMatch f res).all := by
+  have := apply_zero' (filterMatch f res) res.values rfl hn
+  simp [filterApply, this]
+
+/-! ### match_pure -/
+
+/-- a result that differs only in the numbers of its measurements -/
+def mapPayload (g : Nat → Nat) (res : Res) : Res :=
+  { res with values := res.values.map fun v => { v with payload := g v.payload } }
+
+mutual
+theorem denote_mapPayload (re : ReOracle) (g : Nat → Nat) (res : Res) (i : Nat) :
+    ∀ e, denote re (mapPayload g res) i e = denote re res i e
+  | .and es => by simp only [denote]; exact denoteAll_mapPayload re g res i es
+  | .or es => by simp only [denote]; exact denoteAny_mapPayload re g res i es
+  | .not e => by simp only [denote]; rw [denote_mapPayload re g res i e]
+  | .mtch key off mt => by
+    simp only [denote, termHolds, mapPayload, keyValue, Res.view, List.getElem?_map]
+    cases res.values[i]? <;> simp
+theorem denoteAll_mapPayload (re : ReOracle) (g : Nat → Nat) (res : Res) (i : Nat) :
+    ∀ es, denoteAll re (mapPayload g res) i es = denoteAll re res i es
+  | [] => by simp [denoteAll]
+  | e :: es => by simp only [denoteAll]; rw [denote_mapPayload re g res i e, denoteAll_mapPayload re g res i es]
+theorem denoteAny_mapPayload (re : ReOracle) (g : Nat → Nat) (res : Res) (i : Nat) :
+    ∀ es, denoteAny re (mapPayload g res) i es = denoteAny re res i es
+  | [] => by simp [denoteAny]
+  | e :: es => by simp only [denoteAny]; rw [denote_mapPayload re g res i e, denoteAny_mapPayload re g res i es]
+end
+
+/-- **match_pure**: `Filter.Match` is a function of the name, the configuration and the units
+only — it yields a `Match` and no new result (in the model `filterMatch` does not return a `Res`;
+only `filterApply` does), and its answers do not depend on the measured numbers. -/
+theorem match_pure (re : ReOracle) (e : Filter) (f : FilterFn) (res : Res) (g : Nat → Nat) (i : Nat)
+    (h : walk re e = .ok f) :
+    (filterMatch f (mapPayload g res)).test i = (filterMatch f res).test i := by
+  have hl : (mapPayload g res).values.length = res.values.length := by simp [mapPayload]
+  by_cases hi : i < res.values.length
+  · rw [eval_test re e f _ i h (by rw [hl]; exact hi), eval_test re e f res i h hi, denote_mapPayload]
+  · have h1 : i ≥ (filterMatch f res).n := by simp [filterMatch]; omega
+    have h2 : i ≥ (filterMatch f (mapPayload g res)).n := by simp [filterMatch, hl]; omega
+    simp [Match.test, h1, h2]
+
+/-! ### value lists -/
+
+/-- **value_list_sugar** (tree level): the tree the parser builds for `k:(a OR b …)` holds iff the
+key's value is one of the listed words. -/
+theorem value_list_sugar (re : ReOracle) (res : Res) (i : Nat) (key : Bytes) (off : Nat) (vs : List Bytes)
+    (hk : key ≠ dotUnit) :
+    denote re res i (.or (vs.map fun v => .mtch key off (.lit v))) = decide (keyValue key res ∈ vs) := by
+  simp only [denote]
+  induction vs with
+  | nil => simp [denoteAny]
+  | cons v vs ih =>
+    simp only [List.map_cons, denoteAny, ih, denote, termHolds, hk, if_false, valueHolds]
+    simp [List.mem_cons]
+
+/-! ### fixed-order projections -/
+
+/-- **fixed_projection_filter**: after `Parse` calls that carry fixed value lists, measurement `i`
+of a result is matched iff every such field's *projected* value (for `.fullname`: the name with the
+individually projected keys removed, commit 55c413e) is in its list and the caller's expression
+holds at `i`. -/
+theorem fixed_projection_filter (re : ReOracle) (e : Filter) (f : FilterFn) (excl : List Bytes)
+    (projs : List (List ProjField)) (res : Res) (i : Nat)
+    (h : walk re e = .ok f) (hi : i < res.values.length) :
+    (filterMatch (parseAll excl projs f) res).test i =
+      (projs.flatten.all (inFixed excl · res) && denote re res i e) := by
+  obtain ⟨w, t⟩ := walk_sound re res e f h
+  obtain ⟨_, t2⟩ := parseAll_spec excl projs f res res.values.length w
+  have := t2 i hi
+  simp only [outTest] at this t
+  rw [← t i hi]; exact this
+
+/-- a result whose projected value is missing from some fixed list is removed entirely -/
+theorem fixed_projection_removes (re : ReOracle) (e : Filter) (f : FilterFn) (excl : List Bytes)
+    (projs : List (List ProjField)) (res : Res) (h : walk re e = .ok f)
+    (hout : projs.flatten.all (inFixed excl · res) = false) :
+    (filterApply (parseAll excl projs f) res).1.values = [] ∧
+    (0 < res.values.length → (filterApply (parseAll excl projs f) res).2 = false) := by
+  obtain ⟨w, t⟩ := walk_sound re res e f h
+  obtain ⟨w2, t2⟩ := parseAll_spec excl projs f res res.values.length w
+  have hP : ∀ i, i < res.values.length →
+      outTest res.values.length (parseAll excl projs f res) i = (fun _ => false) i := by
+    intro i hi; rw [t2 i hi, hout]; simp
+  obtain ⟨hv, _, _, hf, _⟩ := apply_of_denotes _ res (fun _ => false) w2 hP
+  have hk : keepIdx (fun _ => false) res.values = [] := by
+    rw [keepIdx_eq]; exact keepFrom_none _ _ _ (fun _ _ _ => rfl)
+  exact ⟨by rw [hv, hk], fun hn => by rw [hf hn, hk]; rfl⟩
+
+/-- a result whose projected values are all listed is filtered by the caller's expression alone -/
+theorem fixed_projection_keeps (re : ReOracle) (e : Filter) (f : FilterFn) (excl : List Bytes)
+    (projs : List (List ProjField)) (res : Res) (h : walk re e = .ok f)
+    (hin : projs.flatten.all (inFixed excl · res) = true) :
+    (filterApply (parseAll excl projs f) res).1.values = kept re e res ∧
+    (0 < res.values.length → (filterApply (parseAll excl projs f) res).2 = !(kept re e res).isEmpty) := by
+  obtain ⟨w, t⟩ := walk_sound re res e f h
+  obtain ⟨w2, t2⟩ := parseAll_spec excl projs f res res.values.length w
+  have hP : ∀ i, i < res.values.length →
+      outTest res.values.length (parseAll excl projs f res) i = denote re res i e := by
+    intro i hi; rw [t2 i hi, hin, t i hi]; simp
+  obtain ⟨hv, _, _, hf, _⟩ := apply_of_denotes _ res (fun i => denote re res i e) w2 hP
+  exact ⟨hv, hf⟩
+
+/-! ### non-vacuity: the hypotheses are satisfiable and the statements bite on results that
+cross one and two mask words, with mask and boolean operands mixed under a negation -/
+
+def exUnitA : Bytes := [97]
+def exUnitB : Bytes := [98]
+/-- n measurements, unit "a" at positions divisible by 3 or equal to 32/64, otherwise "b" rescaled from "a" at multiples of 5 -/
+def exRes (n : Nat) : Res :=
+  { name := [70, 111, 111], config := [],
+    values := (List.range n).map fun i =>
+      { unit := if i % 3 == 0 || i == 32 || i == 64 then exUnitA else exUnitB,
+        origUnit := if i % 5 == 0 then exUnitA else [], payload := i } }
+def exRe : ReOracle := fun _ _ => false
+/-- `-(.unit:a OR -.name:Foo) .unit:b` : mixes mask and boolean operands under a negation -/
+def exExpr : Filter :=
+  .and [.not (.or [.mtch dotUnit 0 (.lit exUnitA), .not (.mtch dotName 0 (.lit [70, 111, 111]))]),
+        .mtch dotUnit 0 (.lit exUnitB)]
+
+def exMatch (n : Nat) : Option Match :=
+  match walk exRe exExpr with
+  | .ok f => some (filterMatch f (exRes n))
+  | .error _ => none
+
+def exCheck (n : Nat) (ones zeros : List Nat) (all any : Bool) : Bool :=
+  match exMatch n with
+  | some m => ones.all (m.test ·) && zeros.all (!m.test ·) && m.all == all && m.any == any
+  | none => false
+
+example : exCheck 65 [1, 31, 34, 62] [0, 3, 5, 32, 33, 63, 64, 65, 66] false true = true := by decide +kernel
+example : exCheck 33 [1, 31] [0, 3, 5, 32, 33] false true = true := by decide +kernel
+
+example : (match walk exRe exExpr with | .ok _ => true | .error _ => false) = true := by decide +kernel
+
+/-- the F12 witness on the repaired code: `.fullname@(Foo Bar)` together with `/size`; the result
+`Foo/size=1` projects to `Foo`, is in the list and is kept (its unprojected name is not). -/
+def exProjs : List (List ProjField) :=
+  [[{ key := dotFullname, fixed := some [[70, 111, 111], [66, 97, 114]] }],
+   [{ key := Bytes.ofString "/size", fixed := none }]]
+def exResF12 : Res := { name := Bytes.ofString "Foo/size=1", config := [], values := [⟨exUnitA, [], 0⟩] }
+
+example : exProjs.flatten.all (inFixed (fullnameKeysOf exProjs) · exResF12) = true := by decide +kernel
+example : projValue (fullnameKeysOf exProjs) dotFullname exResF12 = [70, 111, 111] := by decide +kernel
+example : decide (exResF12.name ∈ [[70, 111, 111], [66, 97, 114]]) = false := by decide +kernel
 
 end C06
